@@ -43,6 +43,7 @@ def rule_q1_q2(ck, prog, S):
     if not got:
         return
     init, clear, add, rem, reml, isfull, isempty, cnt = got
+    R.PROG[0] = prog
     # predicate bodies
     preds = {}
     for f, want in ((isfull, ("count", "size")), (isempty, ("count", 0))):
